@@ -313,6 +313,66 @@ def kani_unit(name, cfg, repo, build, tier, prop=None):
 
 
 # ----------------------------------------------------------------------------------------------
+# bounded runtime stand-in (real crate, executable form of the contracts); also the replay aid
+# ----------------------------------------------------------------------------------------------
+
+def rt_unit(name, cfg, repo, build, tier, prop=None):
+    r = dict(unit=name, kind='rt', status='ok', reason='', diags=[], summary=None, wall=0.0, findings=[])
+    t0 = time.time()
+    scratch = os.path.join('/tmp', 'verif_rt_%s_%d' % (name, os.getpid()))
+    shutil.rmtree(scratch, ignore_errors=True)
+    try:
+        os.makedirs(scratch)
+        rc, out, err = sh(['bash', '-c', 'cd %s && git ls-files -z | xargs -0 -I{} cp --parents {} %s/ && (cp -n Cargo.lock %s/ 2>/dev/null || true)' % (repo, scratch, scratch)])
+        if rc != 0:
+            r.update(status='undecided', reason='cannot copy repo: ' + err[-500:]); return r
+        for mod_file, harness_file in cfg['attach'].items():
+            dst = os.path.join(scratch, mod_file)
+            if not os.path.exists(dst):
+                r.update(status='undecided', reason='lost anchor: %s missing' % mod_file); return r
+            with open(dst, 'a') as f:
+                f.write('\n#[cfg(test)]\n#[path = "%s"]\nmod verif_rt;\n' % os.path.join(VERIF, harness_file))
+        env = dict(os.environ, CARGO_NET_OFFLINE='true', CARGO_TARGET_DIR=os.path.join(scratch, 'target'), VERIF_RT_TIER=tier,
+                   VERIF_SEED=os.environ.get('VERIF_SEED', '1') or '1')
+        cmd = ['cargo', 'test', '--offline', '--lib', cfg['test'], '--', '--nocapture', '--test-threads', '1']
+        try:
+            rc, out, err = sh(cmd, cwd=scratch, env=env, timeout=cfg.get('timeout', 1500))
+        except subprocess.TimeoutExpired:
+            r.update(status='undecided', reason='runtime harness timed out'); return r
+        r['cmd'] = ' '.join(cmd)
+        m = re.search(r'RT-SUMMARY (.*)', out)
+        if m:
+            r['summary'] = dict(kv.split('=', 1) for kv in m.group(1).split() if '=' in kv)
+        for l in out.split('\n'):
+            fm = re.match(r'RT-FAIL tags=(\S+) what=(.*?) cfg=(.*?) failing_op_index=(\d+) history=(.*)$', l.strip())
+            if fm:
+                f = dict(tags=fm.group(1).split(','), what=fm.group(2), cfg=fm.group(3), history=fm.group(5))
+                r['findings'].append(f)
+                r['diags'].append(dict(message='bounded runtime contract check: ' + f['what'], fn='unsync::Cache (runtime)', block=None, line=0, kind='rt', tags=f['tags'],
+                                       clause=['cfg=%s history=%s' % (f['cfg'], f['history'])], source_status='real crate', rendered=l.strip(),
+                                       failing_input=dict(found=True, harness=name, config=f['cfg'], history=f['history'], observed=f['what'],
+                                                          rerun='attach %s to %s as #[cfg(test)] mod and run: %s' % (list(cfg['attach'].values())[0], list(cfg['attach'].keys())[0], ' '.join(cmd)))))
+        if not m and not r['findings']:
+            # the harness did not run to its summary: it does not compile against the edited source (undecided), or it panicked
+            pm = re.search(r"panicked at (.*)", out)
+            if 'error[' in err or 'error:' in err and 'could not compile' in err:
+                r.update(status='undecided', reason='runtime harness does not compile against this source: ' + ' | '.join(re.findall(r'^error.*$', err, re.M)[:3]))
+            elif pm:
+                # a panic inside the cache under test (internal invariant check, overflow, unwrap): C08
+                loc = re.search(r'panicked at ([^\n]*)\n([^\n]*)', out + err)
+                what = 'panic while executing a history: %s' % ((loc.group(1) + ' ' + loc.group(2)) if loc else pm.group(1))
+                r['findings'].append(dict(tags=['C08'], what=what, cfg='', history='(see output)'))
+                r['diags'].append(dict(message='bounded runtime contract check: ' + what, fn='unsync::Cache (runtime)', block=None, line=0, kind='rt', tags=['C08'], clause=[what],
+                                       source_status='real crate', rendered=(out + err)[-3000:], failing_input=dict(found=True, harness=name, observed=what)))
+            else:
+                r.update(status='undecided', reason='runtime harness produced no summary: ' + (out + err)[-800:])
+    finally:
+        shutil.rmtree(scratch, ignore_errors=True)
+        r['wall'] = time.time() - t0
+    return r
+
+
+# ----------------------------------------------------------------------------------------------
 # known findings
 # ----------------------------------------------------------------------------------------------
 
@@ -349,11 +409,12 @@ def matrix(a):
     with cf.ThreadPoolExecutor(max_workers=8) as ex:
         futs = [ex.submit(verus_unit, n, c, a.repo, build, a.tier) for n, c in U.VERUS_UNITS.items()]
         futs += [ex.submit(kani_unit, n, c, a.repo, build, a.tier, None) for n, c in U.KANI_UNITS.items()]
+        futs += [ex.submit(rt_unit, n, c, a.repo, build, a.tier, None) for n, c in getattr(U, 'RT_UNITS', {}).items()]
         for f in futs: results.append(f.result())
     known, _ = load_known()
     props = sorted(set(U.CLAIMS))
     for prop in props:
-        mine = [r for r in results if prop in (U.VERUS_UNITS.get(r['unit']) or U.KANI_UNITS.get(r['unit']))['props']]
+        mine = [r for r in results if prop in (U.VERUS_UNITS.get(r['unit']) or U.KANI_UNITS.get(r['unit']) or U.RT_UNITS.get(r['unit']))['props']]
         v = [(r, d) for r in mine for d in r['diags'] if prop in d['tags'] and not is_known(known, prop, r['unit'], d)]
         und = [r for r in mine if r['status'] != 'ok']
         rc = 1 if v else (2 if und else 0)
@@ -390,12 +451,14 @@ def main():
 
     vunits = {n: c for n, c in U.VERUS_UNITS.items() if prop in c['props']}
     kunits = {n: c for n, c in U.KANI_UNITS.items() if prop in c['props']}
+    runits = {n: c for n, c in getattr(U, 'RT_UNITS', {}).items() if prop in c['props']}
     if not vunits and not kunits:
         print('property %s has no registered check (see MANIFEST.not_applicable)' % prop); sys.exit(2)
     results = []
     with cf.ThreadPoolExecutor(max_workers=8) as ex:
         futs = [ex.submit(verus_unit, n, c, a.repo, build, a.tier) for n, c in vunits.items()]
         futs += [ex.submit(kani_unit, n, c, a.repo, build, a.tier, prop) for n, c in kunits.items()]
+        futs += [ex.submit(rt_unit, n, c, a.repo, build, a.tier, prop) for n, c in runits.items()]
         for f in futs: results.append(f.result())
 
     known, fixed = load_known()
@@ -445,6 +508,13 @@ def main():
                 assumptions.append('%s: %d x %s in the assumed environment / specs (unit lines %s%s)' % (r['unit'], len(lns), name, ','.join(map(str, lns[:12])), ',...' if len(lns) > 12 else ''))
             backends.append('verus 0.2026.09.13 / z3: unit %s: %d functions verified, %d errors besides the %d vacuity canaries that must fail, smt %d ms, wall %.1f s' % (
                 r['unit'], r.get('verified', 0), r.get('errors', 0) - len(r.get('canaries_expected', [])), len(r.get('canaries_expected', [])), r.get('smt_ms', 0), r.get('wall', 0)))
+        elif r['kind'] == 'rt':
+            sm = r.get('summary') or {}
+            bounded.append(dict(harness=r['unit'], bound='every history of length <= %s over %s operations in %s configurations, plus %s sampled histories (seed %s)' % (
+                sm.get('exhaustive_len'), sm.get('alphabet'), sm.get('configs'), sm.get('sampled'), sm.get('seed')), result='%s findings' % sm.get('findings'),
+                what='runtime form of the unsync contracts executed against the real crate after every operation (covers invalidate_entries_if, iter, evict_expired glue)',
+                histories=int(sm.get('histories', 0) or 0), steps=int(sm.get('steps', 0) or 0), wall_s=round(r.get('wall', 0), 1)))
+            backends.append('cargo test (real crate) / runtime contract harness %s: %s histories, wall %.1f s [bounded]' % (r['unit'], sm.get('histories'), r.get('wall', 0)))
         else:
             for h in r.get('harnesses', []):
                 if prop not in h['tags']: continue
@@ -495,12 +565,12 @@ def main():
     if violations:
         os.makedirs(os.path.join(VERIF, 'replays'), exist_ok=True)
         rp = os.path.join(VERIF, 'replays', '%s-%s.json' % (prop, time.strftime('%Y%m%d-%H%M%S')))
+        # a failing input replayed on the real code: the bounded runtime harness ran next to the verifier; take a history it
+        # found for this property (or, failing that, any history it found on this tree)
         failing = None
-        try:
-            import replay as RP
-            failing = RP.find_failing_input(prop, a.repo, [d for _, d, _ in violations], a.tier)
-        except Exception as e:   # the replayer is best effort; it never changes the verdict
-            failing = dict(error='replayer failed: %r' % (e,))
+        cands = [d for r in results if r['kind'] == 'rt' for d in r['diags']]
+        mine = [d for d in cands if prop in d['tags']] or cands
+        if mine: failing = mine[0].get('failing_input')
         found = bool(failing and failing.get('found'))
         json.dump(dict(property=prop, repo=repo_state(a.repo), failing_input=failing,
                        failed_obligations=[dict(unit=r['unit'], function=d['fn'], kind=d['kind'], message=d['message'], obligation=d['clause'], tags=d['tags'],
